@@ -118,7 +118,7 @@ func jsonNameTable(js ...J) []any {
 				if s, ok := v.(string); ok && (k == "attr" || k == "key" || k == "id" || k == "ty" || k == "fn" || (k == "k" && t["v"] != nil)) {
 					seen[s] = true
 				}
-				if k == "f" {
+				if k == "f" || k == "attrs" { // record values and entity attributes: the keys are names
 					if f, ok := v.(Obj); ok {
 						for name := range f {
 							seen[name] = true
